@@ -348,8 +348,10 @@ class QuantityTableCoordinate(BaseTableCoordinate):
             dwd["world_axis_names"].append(self.names[i] if self.names else None)
             dwd["world_axis_physical_types"].append(self.frame.axis_physical_types[i])
             dwd["world_axis_units"].append(table.unit.to_string())
-            dwd["world_axis_object_components"].append((f"quantity{i}", 0, "value"))
-            dwd["world_axis_object_classes"].update({f"quantity{i}": (u.Quantity, tuple(), {"unit": table.unit.to_string()})})
+            # The key has to be unique among all the tables of an ExtraCoords, so use the name if there is one.
+            key = self.names[i] if self.names else f"quantity{i}"
+            dwd["world_axis_object_components"].append((key, 0, "value"))
+            dwd["world_axis_object_classes"].update({key: (u.Quantity, tuple(), {"unit": table.unit.to_string()})})
             return
 
         new_components["tables"].append(table[item])
